@@ -98,7 +98,7 @@ impl Check for C13 {
         true
     }
     fn units(&self, tier: Tier) -> Vec<Unit> {
-        vec![Unit::enumerate("enumerate", 16), Unit::enumerate("pty", 4), Unit::gen("random", 16, tier.pick(150, 2500))]
+        vec![Unit::enumerate("enumerate", 16), Unit::enumerate("pty", 4), Unit::gen("random", 16, tier.pick(600, 5000))]
     }
     fn required_classes(&self, _tier: Tier) -> Vec<&'static str> {
         vec!["outcome:info", "outcome:usage", "outcome:ok", "outcome:failed", "outcome:tty_refused", "stdout:Pipe", "stdout:File", "stdout:Pty"]
